@@ -133,6 +133,13 @@ class Report:
             self.samples.append(r["sample"])
         for k, v in r.get("vacuity", {}).items():
             self.vacuity[k] = self.vacuity.get(k, 0) + v
+        if r.get("cross"):
+            c = self.extra.setdefault("second_solver", {"dumped": 0, "agree": 0, "unknown_or_timeout": 0, "disagree": 0,
+                                                         "solvers": ["cvc5 1.0.3 (binary)", "z3 4.8.12 (binary)"]})
+            for k in ("dumped", "agree", "unknown_or_timeout", "disagree"):
+                c[k] += r["cross"][k]
+            for n in r.get("cross_notes", []):
+                self.inconclusive.append("second solver disagrees: " + n)
 
     def red_enough(self, n=25) -> bool:
         """A run that already has n confirmed violations is red; the remaining cases are skipped (and said so)."""
